@@ -34,8 +34,9 @@ type regRoute struct {
 }
 
 type regCase struct {
-	Prog   []regStmt  `json:"prog"`
-	Routes []regRoute `json:"routes"`
+	NGlobal *int       `json:"nglobal"`
+	Prog    []regStmt  `json:"prog"`
+	Routes  []regRoute `json:"routes"`
 }
 
 func init() {
@@ -196,6 +197,10 @@ func regReplay(s *Summary, raw json.RawMessage) {
 		}
 		if ok, why := x.callerListIntact(); !ok {
 			s.mismatch(desc("caller-list", fmt.Sprintf("program %v: %s", progText(c.Prog), why)), c)
+			return
+		}
+		if c.NGlobal != nil && len(x.r.Handlers()) != *c.NGlobal {
+			s.mismatch(desc("middleware", fmt.Sprintf("program %v: the router has %d global middleware, spec %d", progText(c.Prog), len(x.r.Handlers()), *c.NGlobal)), c)
 			return
 		}
 		if len(x.routes) != len(c.Routes) {
